@@ -2,8 +2,9 @@ use std::{num::ParseIntError, str::FromStr};
 
 use crate::{
     util::{
-        constants::{BUG_MSG, SECS_PER_DAY},
+        constants::{BUG_MSG, DAYS_TO_1970_I64, SECS_PER_DAY},
         date::convert::{weekdays_in_month, year_doy_to_days, year_month_to_doy},
+        leap::is_leap_year,
     },
     DateTime, DateUtilities,
 };
@@ -113,43 +114,46 @@ impl AlternateLocalTimeType {
         }
     }
 
-    pub(super) fn local_std_end_timestamp(&self, timestamp: i64) -> i64 {
+    pub(super) fn local_std_end_timestamp(&self, timestamp: i64) -> Option<i64> {
         rule_to_local_timestamp(&self.std_end, self.std_end_time as i32, timestamp)
     }
 
-    pub(super) fn local_dst_end_timestamp(&self, timestamp: i64) -> i64 {
+    pub(super) fn local_dst_end_timestamp(&self, timestamp: i64) -> Option<i64> {
         rule_to_local_timestamp(&self.dst_end, self.dst_end_time as i32, timestamp)
     }
 }
 
-fn rule_to_local_timestamp(start: &RuleDay, time: i32, timestamp: i64) -> i64 {
+/// Returns `None` if the rule day is not inside the supported date range in the year of the timestamp
+fn rule_to_local_timestamp(start: &RuleDay, time: i32, timestamp: i64) -> Option<i64> {
+    let year =
+        DateTime::from_seconds(timestamp.checked_add(DAYS_TO_1970_I64 * SECS_PER_DAY as i64)?)
+            .ok()?
+            .year();
     let date_days = match start {
-        RuleDay::JulianDayWithoutLeap(doy) => {
-            let year = DateTime::from_timestamp(timestamp).year();
-            year_doy_to_days(year, *doy, true).unwrap()
-        }
+        RuleDay::JulianDayWithoutLeap(doy) => year_doy_to_days(year, *doy, true).ok()?,
         RuleDay::JulianDayWithLeap(doy) => {
-            let year = DateTime::from_timestamp(timestamp).year();
-            year_doy_to_days(year, doy + 1, false).unwrap()
+            // Day 365 only exists in leap years
+            let year_days = if is_leap_year(year) { 366 } else { 365 };
+            year_doy_to_days(year, (doy + 1).min(year_days), false).ok()?
         }
         RuleDay::MonthWeekDay(month, week, day) => {
-            let year = DateTime::from_timestamp(timestamp).year();
-
-            let weekdays_in_month = weekdays_in_month(year, *month as u32, *day);
+            let weekdays_in_month = weekdays_in_month(year, *month as u32, *day).ok()?;
 
             let day_of_month = match week {
-                5 => weekdays_in_month.last().unwrap(),
-                _ => &weekdays_in_month[*week as usize - 1],
+                5 => weekdays_in_month.last()?,
+                _ => weekdays_in_month.get((*week as usize).checked_sub(1)?)?,
             };
 
-            let (start, _) = year_month_to_doy(year, *month as u32).unwrap();
-            year_doy_to_days(year, start + day_of_month, false).unwrap()
+            let (start, _) = year_month_to_doy(year, *month as u32).ok()?;
+            year_doy_to_days(year, start + day_of_month, false).ok()?
         }
     };
     let time = time as i64;
-    DateTime::from_seconds(date_days as i64 * SECS_PER_DAY as i64 + time)
-        .unwrap()
-        .timestamp()
+    Some(
+        DateTime::from_seconds(date_days as i64 * SECS_PER_DAY as i64 + time)
+            .ok()?
+            .timestamp(),
+    )
 }
 
 fn remove_designation(cursor: &mut Cursor) -> Result<(), TimeZoneError> {
@@ -251,10 +255,16 @@ fn parse_tz_string_rule(
         b'J' => {
             cursor.read_exact(1).expect(BUG_MSG);
             let day = parse_int(cursor.read_while(|c: &u8| c.is_ascii_digit()))?;
+            if !(1..=365).contains(&day) {
+                return Err(TimeZoneError::InvalidTzFile("Invalid julian day in footer"));
+            }
             RuleDay::JulianDayWithoutLeap(day)
         }
         byte if byte.is_ascii_digit() => {
-            let day = parse_int(cursor.read_while(|c: &u8| c.is_ascii_digit())).expect(BUG_MSG);
+            let day = parse_int(cursor.read_while(|c: &u8| c.is_ascii_digit()))?;
+            if day > 365 {
+                return Err(TimeZoneError::InvalidTzFile("Invalid julian day in footer"));
+            }
             RuleDay::JulianDayWithLeap(day)
         }
         b'M' => {
@@ -266,6 +276,12 @@ fn parse_tz_string_rule(
 
             cursor.read_exact(1)?;
             let day = parse_int(cursor.read_while(|c| c.is_ascii_digit()))?;
+
+            if !(1..=12).contains(&month) || !(1..=5).contains(&week) || day > 6 {
+                return Err(TimeZoneError::InvalidTzFile(
+                    "Invalid month, week or day in footer",
+                ));
+            }
 
             RuleDay::MonthWeekDay(month, week, day)
         }
